@@ -254,6 +254,23 @@ ADDED3 = {
  "C20": "Scenarios other-annotation-into-cached-folder and bed-export-from-cached-db (real find_annotation), completeness flag of conversions.",
 }
 
+ADDED4 = {
+ "C01": "Negative kind alt-terminal-same-length (known finding).",
+ "C02": "__no_feature of the transcript-model table recounted from transcript_model_reads.",
+ "C04": "Structure D1 (known chain with a distal unannotated polyA site).",
+ "C05": "L1 alphabet includes one-base alignments, strict tiling of sub-regions.",
+ "C07": "World w10 (fresh run in a folder holding an earlier kept run); crash variant torn (the file opened at the crash point keeps half of its content).",
+ "C08": "MAPQ-0 twins of the same3 scenarios.",
+ "C09": "Multi-character read_id delimiter; group columns of grouped TPM tables.",
+ "C10": "Experiments sharing input files under other labels, numeric YAML labels, experiment names occurring in output file suffixes.",
+ "C12": "Part files with reversed @SQ order; placed unmapped record in the split world.",
+ "C13": "Second gene whose exons coincide with introns of the first; near-duplicate features (known finding).",
+ "C14": "A read intron never vanishes from inside the corrected alignment; strategy none with --illumina_bam (known finding).",
+ "C17": "Read-set histories whose per-chromosome id reservations differ.",
+ "C18": "Majority world (2:1 splice-site vote against the annotated gene's strand); 45-kb locus split into sub-regions.",
+ "C20": "Editor actor replacing an input file; real db2bed and create_index under the scheduler; scenarios bed-rewrite-vs-cached-reader, gtf-rewritten-during-conversion, index-clean-start-vs-cached, index-two-fresh.",
+}
+
 
 def main():
     props = [json.loads(l) for l in open(os.path.join(HERE, "properties.jsonl"))]
@@ -263,7 +280,7 @@ def main():
         pid = p["id"]
         if pid in CHECKS:
             level, tech, text, note, ref = CHECKS[pid]
-            text = text + ADDED.get(pid, "") + (" " + ADDED2[pid] if pid in ADDED2 else "") + (" " + ADDED3[pid] if pid in ADDED3 else "")
+            text = text + ADDED.get(pid, "") + (" " + ADDED2[pid] if pid in ADDED2 else "") + (" " + ADDED3[pid] if pid in ADDED3 else "") + (" " + ADDED4[pid] if pid in ADDED4 else "")
             checks.append({
                 "property_id": pid,
                 "quick_cmd": "./check %s --tier quick" % pid,
